@@ -51,6 +51,7 @@ func secondContext(c *Check) map[string]interface{} {
 	rules[c.Prop](c2)
 	commonPreconditions(c2)
 	dynResolver = c.P.resolveDynCalls // the resolver follows the primary program again
+	elemResolver = c.P.resolveElem
 	verd := func(x *Check) map[string]bool {
 		m := map[string]bool{}
 		for _, o := range x.Obls {
